@@ -42,14 +42,14 @@ one() { # dir-or-patch property id
   local t0=$(date +%s)
   MUT_WORKTREE=1 VERIF_JOBS="${VERIF_JOBS:-8}" selftest/run_mutant.sh "$patch" "$prop" "$g" "${RUNS:-2400}" > "$log" 2>&1; local rc=$?
   local t1=$(date +%s)
-  python3 - "$log" "$rc" "$prop" "$g" "$out" "$id" "$((t1-t0))" <<'EOF'
+  python3 - "$log" "$rc" "$prop" "$g" "$out" "$id" "$((t1-t0))" "${RUNS:-2400}" <<'EOF'
 import sys,json,re
-log,rc,prop,groups,out,ident,secs=sys.argv[1:]
+log,rc,prop,groups,out,ident,secs,nruns=sys.argv[1:]
 txt=open(log,errors='replace').read()
 classes=sorted(set(re.findall(r'class=([^;\s]+)',txt))|set(re.findall(r'further violation class not minimised \(limit \d+\): (\S+)',txt)))
 mins=re.findall(r'minimised (\d+) -> (\d+) steps',txt)
 summary=[l for l in txt.splitlines() if l.startswith('runs=')]
-rec=dict(id=ident, property=prop, command='selftest/run_mutant.sh <patch> %s "%s" %s'%(prop,groups,'2400'), exit_code=int(rc),
+rec=dict(id=ident, property=prop, command='selftest/run_mutant.sh <patch> %s "%s" %s'%(prop,groups,nruns), exit_code=int(rc),
          detected=(int(rc)==1), violation_classes=classes[:12], minimised=[dict(before=int(a),after=int(b)) for a,b in mins[:6]],
          summary=summary[-1] if summary else '', seconds=int(secs),
          harness_errors=len(re.findall(r'HARNESS-ERROR',txt)))
